@@ -43,6 +43,8 @@ def run(ctx):
     generator_shape(ctx, facts)
     random_cover(ctx, facts)
     seed_sides(ctx, facts)
+    from rules import C16
+    C16.index_sync(ctx, facts)      # the batch index a validator is built with selects its PRSS indices (affine ids): it must never repeat
     ctx.assume("AES / HKDF behave as ideal primitives; absence of (step, index) reuse over all executions is not decided")
 
 
